@@ -1,3 +1,322 @@
 // Kani harnesses (child module of crates/axmos-db/src/types/blob.rs).  See /verif/HARNESS_GUIDE.md
+// C16.like      : LIKE matching terminates and never panics on any data <= 4 bytes x pattern <= 3 bytes
+// C05.like_ref  : ... and returns what a reference matcher returns (% any sequence, _ one byte, \ escapes the next byte)
+// C16.decoders  : VarInt / Blob / fixed-size decoders on arbitrary bytes: Ok or Err, never a panic
 #![allow(unused_imports, dead_code, clippy::all)]
 use super::*;
+use crate::types::DataTypeKind;
+
+fn okf<T, E>(r: Result<T, E>) -> Option<T> {
+    match r {
+        Ok(v) => Some(v),
+        Err(e) => {
+            std::mem::forget(e);
+            None
+        }
+    }
+}
+
+// =====================================================================================================================
+// LIKE
+// =====================================================================================================================
+const DMAX: usize = 4;
+const PMAX: usize = 3;
+/// Reference matcher, the textbook recursion
+///   m(i, j) = [j = |p|] i = |d|
+///           | [p[j] = '\', j+1 < |p|] i < |d| && d[i] = p[j+1] && m(i+1, j+2)
+///           | [p[j] = '%'] m(i, j+1) || (i < |d| && m(i+1, j))
+///           | [p[j] = '_'] i < |d| && m(i+1, j+1)
+///           | [otherwise]  i < |d| && d[i] = p[j] && m(i+1, j+1)
+/// tabulated bottom-up over the fixed 5 x 4 table (recursion would need its own unwinding).
+fn ref_like(d: &[u8; DMAX], n: usize, p: &[u8; PMAX], m: usize) -> bool {
+    let mut t = [[false; PMAX + 1]; DMAX + 2];
+    let mut jj = 0;
+    while jj <= PMAX {
+        let j = PMAX - jj;
+        let mut ii = 0;
+        while ii <= DMAX {
+            let i = DMAX - ii;
+            t[i][j] = if i > n || j > m {
+                false
+            } else if j == m {
+                i == n
+            } else {
+                let c = p[j];
+                if c == b'\\' {
+                    j + 1 < m && i < n && d[i] == p[j + 1] && t[i + 1][j + 2]
+                } else if c == b'%' {
+                    t[i][j + 1] || (i < n && t[i + 1][j])
+                } else if c == b'_' {
+                    i < n && t[i + 1][j + 1]
+                } else {
+                    i < n && d[i] == c && t[i + 1][j + 1]
+                }
+            };
+            ii += 1;
+        }
+        jj += 1;
+    }
+    t[0][0]
+}
+struct Shape {
+    well_formed: bool,     // no dangling escape at the end
+    has_escape: bool,      // some unescaped '\'
+    unescaped_pct: bool,   // some unescaped '%'
+    pct_before_esc: bool,  // an unescaped '%' occurs before an escape
+    ends_with_pct: bool,   // last byte is '%'
+}
+fn shape(p: &[u8; PMAX], m: usize) -> Shape {
+    let mut s = Shape { well_formed: true, has_escape: false, unescaped_pct: false, pct_before_esc: false, ends_with_pct: false };
+    let mut esc_next = false;
+    let mut j = 0;
+    while j < PMAX {
+        if j < m {
+            if esc_next {
+                esc_next = false;
+            } else if p[j] == b'\\' {
+                s.has_escape = true;
+                if s.unescaped_pct {
+                    s.pct_before_esc = true;
+                }
+                esc_next = true;
+            } else if p[j] == b'%' {
+                s.unescaped_pct = true;
+            }
+            if j + 1 == m {
+                s.ends_with_pct = p[j] == b'%';
+            }
+        }
+        j += 1;
+    }
+    s.well_formed = !esc_next;
+    s
+}
+struct LikeIn {
+    d: [u8; DMAX],
+    n: usize,
+    p: [u8; PMAX],
+    m: usize,
+}
+fn like_in() -> LikeIn {
+    let x = LikeIn { d: kani::any(), n: kani::any(), p: kani::any(), m: kani::any() };
+    kani::assume(x.n <= DMAX && x.m <= PMAX);
+    x
+}
+// Loop bound: every iteration of the main loop of match_pattern advances pattern_idx, advances data_idx or backtracks
+// (which strictly increases backtrack_data_idx <= |data|); exhaustive native enumeration over {a,b,%,_,\} gives at most
+// 12 iterations for |data| <= 4, |pattern| <= 3.  unwind 14 covers it and the unwinding assertions confirm it for all bytes.
+// @obl harness=c16_like_total id=C16.like[data<=4,pattern<=3] tier=quick funcs="BlobRef::like_bytes,BlobRef::match_pattern,BlobRef::data,VarInt::from_encoded_bytes" bounds="every data of 0..=4 bytes (as an encoded blob), every pattern of 0..=3 bytes (dangling escapes included)" unwind=14
+#[kani::proof]
+#[kani::unwind(14)]
+fn c16_like_total() {
+    let x = like_in();
+    let mut enc = [0u8; DMAX + 1];
+    enc[0] = (2 * x.n) as u8; // zig-zag varint of the data length
+    enc[1..].copy_from_slice(&x.d);
+    kani::cover!(x.n == DMAX && x.m == PMAX, "reach");
+    let blob = BlobRef::from(&enc[..x.n + 1]);
+    let r = okf(blob.like_bytes(&x.p[..x.m]));
+    assert!(r.is_some(), "like_on_well_formed_blob_is_ok");
+}
+fn like_agrees(x: &LikeIn) {
+    let got = BlobRef::match_pattern(&x.d[..x.n], &x.p[..x.m]);
+    let want = ref_like(&x.d, x.n, &x.p, x.m);
+    assert!(got == want, "like_matches_reference");
+}
+// @obl harness=c05_like_ref_plain id=C05.like_ref[no escape] tier=quick funcs="BlobRef::match_pattern" bounds="data 0..=4 bytes, pattern 0..=3 bytes without backslash" unwind=14
+#[kani::proof]
+#[kani::unwind(14)]
+fn c05_like_ref_plain() {
+    let x = like_in();
+    let s = shape(&x.p, x.m);
+    kani::assume(!s.has_escape);
+    kani::cover!(x.n == DMAX && x.m == PMAX, "reach");
+    like_agrees(&x);
+}
+// @obl harness=c05_like_ref_escape_ok id=C05.like_ref[escape, no % before it, not ending in escaped %] tier=quick funcs="BlobRef::match_pattern" bounds="data 0..=4 bytes, pattern 0..=3 bytes with an escape" assume="pattern does not end in a dangling backslash" unwind=14
+#[kani::proof]
+#[kani::unwind(14)]
+fn c05_like_ref_escape_ok() {
+    let x = like_in();
+    let s = shape(&x.p, x.m);
+    kani::assume(s.has_escape && s.well_formed);
+    kani::assume(!s.pct_before_esc && !(s.ends_with_pct && !s.unescaped_pct));
+    kani::cover!(x.n == DMAX && x.m == PMAX, "reach");
+    like_agrees(&x);
+}
+// failing region 1: after a mismatch on an escaped byte the matcher backtracks to the `%` but keeps `in_escape` set
+// @obl harness=c05_like_ref_escape_after_pct id=C05.like_ref[escape after %] tier=quick funcs="BlobRef::match_pattern" bounds="data 0..=4 bytes, pattern 0..=3 bytes with an unescaped % before an escape" assume="pattern does not end in a dangling backslash" unwind=14
+#[kani::proof]
+#[kani::unwind(14)]
+fn c05_like_ref_escape_after_pct() {
+    let x = like_in();
+    let s = shape(&x.p, x.m);
+    kani::assume(s.has_escape && s.well_formed && s.pct_before_esc);
+    kani::cover!(x.n == DMAX && x.m == PMAX, "reach");
+    like_agrees(&x);
+}
+// failing region 2: "pattern exhausted, data left" accepts when the last pattern byte is '%' even if that % was escaped
+// @obl harness=c05_like_ref_trailing_escaped_pct id=C05.like_ref[ends in escaped %, no wildcard %] tier=quick funcs="BlobRef::match_pattern" bounds="data 0..=4 bytes, pattern 0..=3 bytes ending in \\% without an unescaped %" unwind=14
+#[kani::proof]
+#[kani::unwind(14)]
+fn c05_like_ref_trailing_escaped_pct() {
+    let x = like_in();
+    let s = shape(&x.p, x.m);
+    kani::assume(s.has_escape && s.well_formed && !s.pct_before_esc && s.ends_with_pct && !s.unescaped_pct);
+    kani::cover!(x.n == DMAX && x.m >= 2, "reach");
+    like_agrees(&x);
+}
+
+// =====================================================================================================================
+// decoders on arbitrary bytes.  Precondition for `deserialize(buffer, cursor)`: cursor <= buffer.len()
+// (a cursor beyond the buffer is a caller bug, not input data).
+// =====================================================================================================================
+const BMAX: usize = 12;
+/// independent LEB128 reader: (raw zig-zag value, bytes used)
+fn ref_varint(b: &[u8; BMAX], start: usize, n: usize) -> Option<(u64, usize)> {
+    let mut raw = 0u64;
+    let mut i = 0;
+    while i < MAX_VARINT_LEN {
+        if start + i >= n {
+            return None;
+        }
+        let byte = b[start + i];
+        raw |= ((byte & 0x7f) as u64) << (7 * i);
+        if byte & 0x80 == 0 {
+            return Some((raw, i + 1));
+        }
+        i += 1;
+    }
+    None
+}
+// @obl harness=c16_varint_total id=C16.decoders[VarInt/<=12] tier=quick funcs="VarInt::from_encoded_bytes,VarInt::value" bounds="every byte string of length 0..=12" unwind=13
+#[kani::proof]
+#[kani::unwind(13)]
+fn c16_varint_total() {
+    let b: [u8; BMAX] = kani::any();
+    let n: usize = kani::any();
+    kani::assume(n <= BMAX);
+    kani::cover!(n == BMAX, "reach");
+    match okf(VarInt::from_encoded_bytes(&b[..n])) {
+        Some((vi, used)) => {
+            assert!(used >= 1 && used <= MAX_VARINT_LEN && used <= n, "varint_used_within_buffer");
+            assert!(b[used - 1] & 0x80 == 0, "varint_ends_at_terminator");
+            let v = vi.value(); // must not hit unreachable!()
+            match ref_varint(&b, 0, n) {
+                Some((raw, u)) => assert!(u == used && VarInt::encode_zigzag(v) == raw, "varint_value_matches_reference"),
+                None => assert!(false, "varint_accepts_only_terminated"),
+            }
+        }
+        None => assert!(ref_varint(&b, 0, n).is_none(), "varint_rejects_only_unterminated"),
+    }
+}
+/// length prefixes for which `offset + len as usize` wraps: negative length -k with k <= offset
+fn blob_len_wraps(b: &[u8; BMAX], start: usize, n: usize) -> bool {
+    match ref_varint(b, start, n) {
+        Some((raw, used)) => raw & 1 == 1 && (raw >> 1) < used as u64,
+        None => false,
+    }
+}
+fn blob_decode(b: &[u8; BMAX], n: usize, cursor: usize) {
+    match okf(Blob::reinterpret_cast(&b[cursor..n])) {
+        Some((r, total)) => {
+            assert!(total <= n - cursor && r.total_length() == total, "blob_ref_within_buffer");
+            std::mem::forget(r);
+        }
+        None => {}
+    }
+    match okf(DataTypeKind::Blob.deserialize(&b[..n], cursor)) {
+        Some((r, next)) => {
+            assert!(next >= cursor && next <= n, "blob_cursor_within_buffer");
+            std::mem::forget(r);
+        }
+        None => {}
+    }
+}
+// @obl harness=c16_blob_decode_ok id=C16.decoders[Blob/<=12/length prefix does not wrap] tier=quick funcs="Blob::reinterpret_cast,Blob::deserialize,DataTypeKind::deserialize,VarInt::from_encoded_bytes,VarInt::value" bounds="every byte string of length 0..=12, every cursor <= length" assume="cursor <= len; not (length prefix = -k with k <= prefix size)" unwind=13
+#[kani::proof]
+#[kani::unwind(13)]
+fn c16_blob_decode_ok() {
+    let b: [u8; BMAX] = kani::any();
+    let (n, cursor): (usize, usize) = (kani::any(), kani::any());
+    kani::assume(n <= BMAX && cursor <= n);
+    kani::assume(!blob_len_wraps(&b, cursor, n));
+    kani::cover!(n == BMAX, "reach");
+    blob_decode(&b, n, cursor);
+}
+// @obl harness=c16_blob_decode_neg_len id=C16.decoders[Blob/<=12/length prefix -k, k <= prefix size] tier=quick funcs="Blob::reinterpret_cast,Blob::deserialize,DataTypeKind::deserialize" bounds="every byte string of length 0..=12 whose varint length prefix decodes to -1 (1-byte prefix), -1..-2 (2-byte prefix), ..." assume="cursor <= len" unwind=13
+#[kani::proof]
+#[kani::unwind(13)]
+fn c16_blob_decode_neg_len() {
+    let b: [u8; BMAX] = kani::any();
+    let (n, cursor): (usize, usize) = (kani::any(), kani::any());
+    kani::assume(n <= BMAX && cursor <= n);
+    kani::assume(blob_len_wraps(&b, cursor, n));
+    kani::cover!(true, "reach");
+    blob_decode(&b, n, cursor);
+}
+
+// fixed-size kinds: deserialize aligns the cursor up, then slices `buffer[aligned..][..SIZE]`
+fn fixed_one(kind: DataTypeKind, size: usize, b: &[u8; BMAX], n: usize, cursor: usize, short_region: bool) {
+    let aligned = (cursor + size - 1) & !(size - 1); // SIZE == ALIGN for Int/UInt/Float (4) and BigInt/BigUInt/Double (8)
+    let short = aligned + size > n;
+    kani::cover!(short == short_region, "reach");
+    if short == short_region {
+        match okf(kind.deserialize(&b[..n], cursor)) {
+            Some((r, next)) => {
+                assert!(next == aligned + size && next <= n, "fixed_cursor_advances_by_size");
+                std::mem::forget(r);
+            }
+            None => {} // Err (e.g. bytemuck alignment of the base address) is an acceptable outcome
+        }
+    }
+    let short_rc = size > n - cursor;
+    if short_rc == short_region {
+        let r = okf(kind.reinterpret_cast(&b[cursor..n]));
+        std::mem::forget(r);
+    }
+}
+fn fixed_all(short_region: bool) {
+    let b: [u8; BMAX] = kani::any();
+    let (n, cursor): (usize, usize) = (kani::any(), kani::any());
+    kani::assume(n <= BMAX && cursor <= n);
+    fixed_one(DataTypeKind::Int, 4, &b, n, cursor, short_region);
+    fixed_one(DataTypeKind::UInt, 4, &b, n, cursor, short_region);
+    fixed_one(DataTypeKind::Float, 4, &b, n, cursor, short_region);
+    fixed_one(DataTypeKind::BigInt, 8, &b, n, cursor, short_region);
+    fixed_one(DataTypeKind::BigUInt, 8, &b, n, cursor, short_region);
+    fixed_one(DataTypeKind::Double, 8, &b, n, cursor, short_region);
+}
+// @obl harness=c16_fixed_decode_ok id=C16.decoders[Int,UInt,Float,BigInt,BigUInt,Double/<=12/value fits] tier=quick funcs="DataTypeKind::deserialize,DataTypeKind::reinterpret_cast,BytemuckRef::try_from" bounds="every byte string of length 0..=12, every cursor <= length such that aligned(cursor) + SIZE <= length" assume="cursor <= len" unwind=4
+#[kani::proof]
+#[kani::unwind(4)]
+fn c16_fixed_decode_ok() {
+    fixed_all(false);
+}
+// @obl harness=c16_fixed_decode_short id=C16.decoders[Int,UInt,Float,BigInt,BigUInt,Double/<=12/buffer too short] tier=quick funcs="DataTypeKind::deserialize,DataTypeKind::reinterpret_cast,BytemuckRef::try_from" bounds="every byte string of length 0..=12, every cursor <= length such that aligned(cursor) + SIZE > length" assume="cursor <= len" unwind=4
+#[kani::proof]
+#[kani::unwind(4)]
+fn c16_fixed_decode_short() {
+    fixed_all(true);
+}
+// @obl harness=c16_bool_null_decode id=C16.decoders[Bool,Null/<=12] tier=quick funcs="DataTypeKind::deserialize,Bool::deserialize,Bool::reinterpret_cast" bounds="every byte string of length 0..=12, every cursor <= length" assume="cursor <= len" unwind=4
+#[kani::proof]
+#[kani::unwind(4)]
+fn c16_bool_null_decode() {
+    let b: [u8; BMAX] = kani::any();
+    let (n, cursor): (usize, usize) = (kani::any(), kani::any());
+    kani::assume(n <= BMAX && cursor <= n);
+    kani::cover!(cursor == n, "reach");
+    match okf(DataTypeKind::Bool.deserialize(&b[..n], cursor)) {
+        Some((r, next)) => {
+            assert!(cursor < n && next == cursor + 1, "bool_consumes_one_byte");
+            std::mem::forget(r);
+        }
+        None => assert!(cursor == n, "bool_rejects_only_empty"),
+    }
+    let r = okf(DataTypeKind::Bool.reinterpret_cast(&b[cursor..n]));
+    std::mem::forget(r);
+    let r = okf(DataTypeKind::Null.deserialize(&b[..n], cursor));
+    assert!(r.is_none(), "null_kind_is_not_deserializable");
+    std::mem::forget(r);
+}
